@@ -27,7 +27,7 @@ type fmtConfig struct {
 	Indent int    `json:"indent"`
 	Align  bool   `json:"align"`
 	MinCol int    `json:"min_col"`
-	Format string `json:"formats"`   // name of the commodity-format set
+	Format string `json:"formats"`  // name of the commodity-format set
 	Where  string `json:"declared"` // "", "file", "workspace"
 }
 
@@ -134,10 +134,10 @@ func newFmtSession(c *core.Ctx, conf fmtConfig, idx int, sets map[string]string)
 }
 
 type fmtResult struct {
-	Edits    []refbuf.TextEdit
-	Raw      string
-	Err      string
-	Diags    string
+	Edits []refbuf.TextEdit
+	Raw   string
+	Err   string
+	Diags string
 }
 
 func (f *fmtSession) format(text string) fmtResult {
